@@ -7,6 +7,10 @@ Families:
            handed to the C extension (captured at `qubovert.sim._anneal.c_anneal_*`)
   mapping  (inside `anneal`) labelled spin objects whose label -> integer mapping was set by the user (set_mapping /
            set_reverse_mapping; a permutation handed over in an order that is not the order of the integers)
+  xeq      (inside `anneal`) labelled / dict inputs whose integer labels are written as int / float / bool / numpy.int64 from
+           one occurrence to the next (1 == 1.0 == True: one variable), with monomials stored under two different keys
+           ({(1.0, 0): -2, (0, 1): 1}): the oracle (domain, value == model(state), best) on every call; the Lean model where
+           it is label-parametric (spin functions, anneal_pubo on a dict), the C arguments compared as a multiset of terms
   history  2-4 calls on ONE Matrix / labelled object with in-place edits in between (grow with larger labels, cancel,
            `*=` a number): every call is compared with the model of the cumulative history and checked by the oracle
            (state domain 0..max_index of the object now)
@@ -207,6 +211,102 @@ def gen_case(rng, force=None):
             "seed": rng.choice([0, 1, 2, 3, rng.randrange(2 ** 31), rng.randrange(2 ** 31), 2 ** 31 - 1] * 3 + [None]),
             "num_anneals": rng.choice([-1, 0, 1, 1, 1, 2, 3, 3])}
 
+def gen_xeq_ops(rng, fn, kind, nmax=5):
+    """family xeq: integer labels 0..n-1 whose occurrences are written as int / float / bool / numpy.int64 (1 == 1.0 == True
+    == numpy.int64(1): ONE variable for dict lookups, `variables`, `mapping` and evaluation).  ordering_key sorts a key by
+    type name first, so one monomial has several canonical stored keys — e.g. (1.0, 0) and (0, 1): 60% of the monomials
+    of degree >= 2 are given twice, in two spellings whose stored keys put the labels in different positions (distinct
+    dict keys of the same monomial; the coefficients do not cancel).  Every variable occurs in a term.
+    Returns (ops, spell, ids): ops with raw id keys, spell[str(j)] = the Python types of the labels of op j."""
+    deg2 = fn in ("quso", "qubo") or kind in DEG2
+    n = rng.randint(2, nmax)
+    ids = list(range(n))
+    monos = set()
+    for _ in range(rng.randint(2, 7)):
+        ln = rng.choice([1, 2, 2, 2] if deg2 else [1, 2, 2, 3, 3])
+        monos.add(tuple(sorted(rng.sample(ids, min(ln, n)))))
+    for i in ids:
+        if not any(i in m and len(m) >= 2 for m in monos):
+            monos.add(tuple(sorted((i, rng.choice([x for x in ids if x != i])))))
+    def draw(m):
+        raw = list(m)
+        rng.shuffle(raw)
+        return raw, [rng.choice(["int", "int", "float", "float", "npint"] + (["bool", "bool"] if i in (0, 1) else [])) for i in raw]
+    entries = []
+    for m in sorted(monos):
+        raw1, sp1 = draw(m)
+        v1 = rng.choice(COEFS)
+        entries.append((raw1, sp1, v1))
+        if len(m) >= 2 and rng.random() < 0.6:
+            for _ in range(60):
+                raw2, sp2 = draw(m)
+                if stored_order(raw2, sp2) != stored_order(raw1, sp1) and raw2 != raw1:
+                    v2 = rng.choice([c for c in COEFS if Fraction(c) + Fraction(v1) != 0])
+                    entries.append((raw2, sp2, v2))
+                    break
+    rng.shuffle(entries)
+    ops = [[raw, v] for raw, _sp, v in entries]
+    spl = {str(j): sp for j, (_raw, sp, _v) in enumerate(entries)}
+    if rng.random() < 0.4:
+        ops.insert(rng.randrange(len(ops) + 1), [[], rng.choice(COEFS)])
+        # re-index the spellings after the insertion of the offset
+        pos = [j for j, (k, _v) in enumerate(ops) if k]
+        spl = {str(pos[j]): sp for j, (_raw, sp, _v) in enumerate(entries)}
+    return ops, spl, ids
+
+def xeq_collisions(case):
+    """number of monomials stored under more than one key (family xeq)"""
+    seen = {}
+    for j, (k, _v) in enumerate(case["ops"]):
+        sp = (case.get("spell") or {}).get(str(j))
+        if k and sp:
+            seen.setdefault(tuple(sorted(k)), set()).add(tuple(stored_order(k, sp)))
+    return sum(1 for v in seen.values() if len(v) > 1)
+
+def model_is_label_parametric(case):
+    """DESIGN.md §3.1: the Lean model reads labels as ids whose order IS ordering_key's order.  With labels that are equal
+    across types the stored order of a key depends on the types, not on the ids; the front-end steps that re-read stored
+    keys in that order (qubo_to_quso on every input — QUBO.squash_key re-sorts —, pubo_to_puso on labelled inputs)
+    enumerate the variables in an order the id-model cannot know; so does anneal_quso on a PUSO / PCSO, which it rebuilds
+    as QUSO(L) from the stored keys.  The spin functions on their own types and on dicts register labels in raw key
+    order, and anneal_pubo on a plain dict reads the raw keys: there the model is exact."""
+    if not case.get("spell"):
+        return True
+    if case["fn"] == "quso":
+        return case["kind"] in ("dict", "QUSO")
+    return case["fn"] == "puso" or (case["fn"] == "pubo" and case["kind"] == "dict")
+
+def xeq_view(canon):
+    """comparison view for family xeq: a monomial stored under two keys occupies two dict slots in the real object and one
+    in the id-model, so an intermediate cancellation can move a term to another position of the flattened arrays.  The
+    results, N, the initial state and the schedule are compared exactly, the terms handed to C as a multiset."""
+    if not isinstance(canon, dict) or not canon.get("call"):
+        return canon
+    c = dict(canon["call"])
+    if "nc" in c:
+        pos, terms = 0, []
+        for n, v in zip(c.pop("nc"), c.pop("cs")):
+            terms.append([sorted(c["terms"][pos:pos + n]), v]); pos += n
+        c["terms"] = sorted(terms)
+    elif "nn" in c:
+        pos, adj = 0, []
+        for i, n in enumerate(c.pop("nn")):
+            adj += [[i, j, v] for j, v in zip(c["nb"][pos:pos + n], c["J"][pos:pos + n])]; pos += n
+        c.pop("nb"); c.pop("J")
+        c["adj"] = sorted(adj)
+    return dict(canon, call=c)
+
+def gen_xeq_case(rng):
+    """a C11 call on a labelled / dict input of family xeq (see gen_xeq_ops)"""
+    fn = rng.choice(["quso", "puso", "qubo", "pubo"])
+    kind = rng.choice([k for k in ALL_KINDS[fn] if k not in MATRIX])
+    c = gen_case(rng, {"fn": fn, "kind": kind, "shape": "general"})
+    ops, spl, ids = gen_xeq_ops(rng, fn, kind)
+    c.update(ops=ops, spell=spl, labels="xeq", shape="xeq")
+    if c["init"] is not None:
+        c["init"] = [[i, rng.choice([1, -1] if fn in SPIN_FNS else [0, 1])] for i in ids]
+    return c
+
 def num_of(s, style):
     f = Fraction(s)
     if style == "float":
@@ -234,13 +334,40 @@ def mapping_by_index(case):
         return None
     return [v for v, _k in sorted(m["pairs"], key=lambda p: p[1])]
 
+SPELL_RANK = {"bool": 0, "float": 1, "int": 2, "npint": 3}     # order of str(type(x)): bool < float < int < numpy.int64
+
+def spell(i, ty):
+    """the label of id i (an integer label) written as another type that compares and hashes equal to it"""
+    if ty == "float":
+        return float(i)
+    if ty == "bool" and i in (0, 1):
+        return bool(i)
+    if ty == "npint":
+        import numpy as np
+        return np.int64(i)
+    return i
+
+def stored_order(k, sp):
+    """ids of the key in the order in which a model object stores it: the documented rule of ordering_key, "sort by type
+    (name) first and then by object", written here from the documentation (independent of the implementation)"""
+    labs = [spell(i, t) for i, t in zip(k, sp)]
+    return [int(x) for x in sorted(set(labs), key=lambda x: (str(type(x)), x))]
+
+def case_key(case, L, j):
+    """the concrete key of op j: case["spell"][j] gives the Python type of every label occurrence (family xeq)"""
+    k = case["ops"][j][0]
+    sp = (case.get("spell") or {}).get(str(j))
+    if sp is None:
+        return L.key(k)
+    return tuple(spell(i, t) for i, t in zip(k, sp))
+
 def build_obj(case):
     L = Labels(case["labels"])
     if case["kind"] == "dict":
-        return {L.key(k): num_of(v, case["num"]) for k, v in case["ops"]}, L
+        return {case_key(case, L, j): num_of(v, case["num"]) for j, (k, v) in enumerate(case["ops"])}, L
     o = cls_of(case["kind"])()
-    for k, v in case["ops"]:
-        o[L.key(k)] += num_of(v, case["num"])
+    for j, (k, v) in enumerate(case["ops"]):
+        o[case_key(case, L, j)] += num_of(v, case["num"])
     for cn in case.get("cons") or []:
         # PCBO / PCSO: recorded constraints (penalty terms, ancillas `__a<k>` for the inequalities)
         P = {L.key(k): num_of(v, "int") for k, v in cn["P"]}
@@ -260,12 +387,115 @@ def obj_data(case, obj, L):
             "vars": sorted(L.ident(v) for v in obj._variables),
             "mapping": [L.ident(rev[i]) for i in range(len(rev))]}
 
+# Python types of the entries of an explicit schedule ("an iterable of floats"): every number type that compares equal to
+# the float it stands for.  The unchanged wrapper converts each entry with PyFloat_AsDouble (__float__, else __index__), so
+# all of these are accepted and denote the temperature float(entry); a str / None / complex entry is not a number the
+# documentation allows (the unchanged code then returns with an exception set -> SystemError) and is never generated.
+SCHED_TYPES = ("float", "int", "bool", "frac", "decimal", "npint64", "npint32", "npuint8", "npfloat32", "npfloat16",
+               "npfloat64", "npbool", "index")
+
+class _Index:
+    """a number that only offers __index__ (and ==): operator.index(x) is what PyFloat_AsDouble falls back to"""
+    def __init__(self, v): self.v = v
+    def __index__(self): return self.v
+    def __eq__(self, o): return self.v == o
+    def __hash__(self): return hash(self.v)
+    def __repr__(self): return "_Index(%d)" % self.v
+
+def typed_entry(t, ty):
+    """the schedule entry of Python type `ty` that equals the float t exactly (None if there is none)"""
+    import numpy as np
+    from decimal import Decimal
+    t = float(t)
+    integral = t == int(t) and abs(t) < 2 ** 31
+    if ty == "float":
+        return t
+    if ty == "int":
+        return int(t) if integral else None
+    if ty == "bool":
+        return bool(t) if t in (0.0, 1.0) else None
+    if ty == "frac":
+        return Fraction(t)
+    if ty == "decimal":
+        return Decimal(t)                      # exact for every finite double
+    if ty in ("npint64", "npint32", "npuint8"):
+        T = {"npint64": np.int64, "npint32": np.int32, "npuint8": np.uint8}[ty]
+        return T(int(t)) if integral and 0 <= t < 256 else None
+    if ty in ("npfloat32", "npfloat16", "npfloat64"):
+        T = {"npfloat32": np.float32, "npfloat16": np.float16, "npfloat64": np.float64}[ty]
+        with warnings.catch_warnings():
+            warnings.simplefilter("ignore")
+            x = T(t)
+        return x if float(x) == t else None
+    if ty == "npbool":
+        return np.bool_(bool(t)) if t in (0.0, 1.0) else None
+    if ty == "index":
+        return _Index(int(t)) if integral else None
+    raise ValueError(ty)
+
+def typed_schedule(s):
+    """the explicit schedule of a case as the Python object handed to the annealer: entries of the types s["types"]
+    (default: floats), in the container s["container"] (default: list for odd lengths, tuple for even ones)"""
+    Ts = [float(t) for t in s["Ts"]]
+    tys = s.get("types") or ["float"] * len(Ts)
+    ents = []
+    for t, ty in zip(Ts, tys):
+        x = typed_entry(t, ty)
+        ents.append(t if x is None else x)
+    cont = s.get("container") or ("list" if len(Ts) % 2 else "tuple")
+    if cont == "ndarray" and ents and len({type(x) for x in ents}) == 1 and type(ents[0]).__module__ == "numpy":
+        import numpy as np
+        return np.array(ents, dtype=type(ents[0]))
+    if cont == "iter":
+        return iter(ents)
+    return tuple(ents) if cont == "tuple" else ents
+
+SCHED_VALUES = [0.0, 0.0, 1.0, 1.0, 2.0, 3.0, 4.0, 5.0, 8.0, 10.0, 0.5, 0.25, 1.5, 2.5, 0.75, 6.0, 100.0]
+
+def gen_typed_schedule(rng, maxdur):
+    dur = rng.choice([1, 2, 3, 5, 10, 20, rng.randint(1, maxdur)])
+    mode = rng.choice(["hot", "hot", "mixed", "zero", "cool", "reheat"])
+    pos = [t for t in SCHED_VALUES if t > 0]
+    if mode == "zero":
+        Ts = [0.0] * dur
+    elif mode == "hot":
+        Ts = [rng.choice(pos) for _ in range(dur)]
+    elif mode == "cool":
+        Ts = sorted((rng.choice(pos) for _ in range(dur)), reverse=True)
+    elif mode == "reheat":
+        z = rng.randint(1, max(1, dur // 2))
+        Ts = [0.0] * z + [rng.choice(pos) for _ in range(max(1, dur - z))]
+    else:
+        Ts = [rng.choice(SCHED_VALUES) for _ in range(dur)]
+    style = rng.choice(["uniform", "uniform", "uniform", "mixed", "one"])
+    nonfloat = [t for t in SCHED_TYPES if t != "float"]
+    def ok(t, ty):
+        return typed_entry(t, ty) is not None
+    if style == "uniform":
+        ty = rng.choice(nonfloat)
+        types = [ty if ok(t, ty) else "float" for t in Ts]
+    elif style == "mixed":
+        types = [rng.choice([ty for ty in SCHED_TYPES if ok(t, ty)]) for t in Ts]
+    else:
+        types = ["float"] * len(Ts)
+        j = rng.randrange(len(Ts))
+        types[j] = rng.choice([ty for ty in nonfloat if ok(Ts[j], ty)])
+    if all(ty == "float" for ty in types):
+        types[0] = "frac"
+    s = {"t": "explicit", "Ts": Ts, "types": types}
+    r = rng.random()
+    if r < 0.25 and len(set(types)) == 1 and types[0].startswith("np"):
+        s["container"] = "ndarray"
+    elif r < 0.35:
+        s["container"] = "iter"
+    return s
+
 def schedule_args(case, obj):
     """(kwargs for the real call, schedule as data for the model)"""
     s = case["sched"]
     if s["t"] == "explicit":
         Ts = [float(t) for t in s["Ts"]]
-        return {"schedule": Ts if len(Ts) % 2 else tuple(Ts)}, {"t": "explicit", "Ts": [bits(t) for t in Ts]}
+        return {"schedule": typed_schedule(s)}, {"t": "explicit", "Ts": [bits(t) for t in Ts]}
     kw = {"schedule": s["name"], "anneal_duration": s["duration"]}
     if "range" in s:
         kw["temperature_range"] = tuple(s["range"])
@@ -732,7 +962,12 @@ def process(ctx, cases):
         ctx.count("shape:" + c["shape"])
         ctx.count("sched:" + (c["sched"].get("name") or "explicit"))
         ctx.count("seed:" + ("None" if c["seed"] is None else "fixed"))
-        if canon != m:
+        if c.get("spell"):
+            # labels equal across types: the model is compared where it is label-parametric, the C arguments as a multiset
+            ctx.count("xeq:%s" % ("model+oracle" if model_is_label_parametric(c) else "oracle-only"))
+            if c["seed"] is not None and model_is_label_parametric(c) and xeq_view(canon) != xeq_view(m):
+                ctx.diff("xeq", c, canon, m)
+        elif canon != m:
             ctx.diff("anneal", c, canon, m)
         bad = oracle(c, canon, res, obj, L, detail)
         if bad:
@@ -858,6 +1093,7 @@ def check(ctx):
     cases += [gen_mapping_case(rng) for _ in range(ctx.scale(400, 5000))]
     cases += [gen_history(rng) for _ in range(ctx.scale(400, 5000))]
     cases += [gen_cons_case(rng) for _ in range(ctx.scale(300, 4000))]
+    cases += [gen_xeq_case(rng) for _ in range(ctx.scale(500, 6000))]
     process(ctx, cases)
     if ctx.diffs and not ctx.violations:
         search(ctx)
